@@ -49,6 +49,42 @@ def ordering_of(fn, operand):
     return None
 
 
+COMBINATORS = ['then', 'and', 'all', 'map_effect', 'map_event', 'from', 'into', 'from_iter']
+FRESH_CALLS = ['crux_core::command::Command::new', 'crux_core::command::Command::done'] + ['crux_core::command::Command::' + n for n in COMBINATORS]
+
+
+def check_fresh_host(rep, core):
+    """R06.g: a combinator returns a fresh command that hosts its operands; it never returns one of the operands with the others
+    spawned onto it.  An operand's abort flag is shared with every AbortHandle taken from it before the composition: if the operand
+    becomes the host, aborting that one member clears the tasks hosting its siblings too."""
+    rep.rule('R06.g', 'combinators return a fresh command hosting their operands, never one of the operands (whose abort flag would then '
+             'govern its siblings)', floor=6)
+    n = 0
+    for name in COMBINATORS:
+        fs = [f for f in core.built if f.kind == 'AssocFn' and f.name == name and path_matches(f.assoc.get('self_adt'), 'crux_core::command::Command')]
+        for f in fs:
+            n += 1
+            ret = origins(f, {'l': 0, 'p': []}, extra_identity=[('core::option::Option::unwrap_or_else', 0), ('core::option::Option::unwrap_or', 0),
+                                                                ('core::option::Option::unwrap_or_default', 0)])
+            operand = [o for o in ret if o.kind == 'arg']
+            fresh = [o for o in ret if o.kind == 'call' and call_matches(o.term, FRESH_CALLS)]
+            other = [o for o in ret if o not in operand and o not in fresh]
+            key = 'Command::%s|fresh-host' % name
+            if operand:
+                rep.bad('R06.g', 'Command::%s|returns-operand' % name,
+                        'Command::%s returns its own operand (parameter %s) with the other command(s) spawned onto it: an AbortHandle taken from that '
+                        'operand before the composition aborts its siblings as well' % (name, sorted(set(o.n for o in operand))))
+            elif other:
+                rep.bad('R06.g', 'Command::%s|returns-unknown' % name,
+                        'Command::%s returns a command that is neither freshly created nor built by another combinator (%s): it may be one of the '
+                        'operands, whose abort flag would govern its siblings' % (name, sorted(set(
+                            norm(o.term.get('callee') or '?') if o.kind == 'call' else o.kind for o in other))))
+            else:
+                rep.ok('R06.g', key, 'returns %s' % sorted(set(last_seg(o.term['callee']) for o in fresh)))
+    if n < 6:
+        rep.bad('R06.g', 'sites', 'expected at least 6 combinators on Command, found %d' % n)
+
+
 def check(ctx, rep):
     rep.rule('R06.a', 'an aborted task is never polled', floor=1)
     rep.rule('R06.b', 'an aborted command clears its tasks and returns before doing anything else', floor=2)
@@ -170,5 +206,6 @@ def check(ctx, rep):
     # R06.f: an aborted (cleared) command is reported as ended to its host: the stream end is decided by is_done alone (shared with C07 R07.e)
     from rules.props import c07
     c07.check_stream_end(rep, 'R06.f', core)
+    check_fresh_host(rep, core)
     rep.assume('dropping the hosting future drops the nested command (ownership; the linear rule of C01 shows it is not stashed elsewhere)')
     rep.assume('user futures are cancellation safe (documented requirement of abort)')
